@@ -182,7 +182,7 @@ theorem C08_removed_option (cfg : Cfg) (ctx : ClsCtx) (call : Call) (hn : call.l
 /-- undocumented `add_test`: entry iff `include_undocumented_add_test` -/
 theorem C08_removed_add_test (cfg : Cfg) (ctx : ClsCtx) (call : Call) (hn : call.lname = lit "add_test") :
     (Item.cmd none call).spec cfg ctx =
-      if cfg.inclAddTest then { top := [.ctest (nameOf call.singles).1 [] (ctestParams call.singles)] } else {} := by
+      if cfg.inclAddTest then { top := [.ctest (nameOf call.allTexts).1 [] (ctestParams call.allTexts)] } else {} := by
   rw [spec_cmd_add_test_if cfg ctx none call hn]; simp [docTextOf]
 
 /-- undocumented `cpp_attr`: listed iff `include_undocumented_cpp_attr` and the innermost class is shown -/
@@ -261,7 +261,7 @@ theorem C08_removed (cfg : Cfg) (ctx : ClsCtx) :
           { top := [.opt (call.singles.headD []) [] (call.singles.getD 1 []) call.singles[2]?] } else {}) ∧
     (∀ call, call.lname = lit "add_test" →
       (Item.cmd none call).spec cfg ctx =
-        if cfg.inclAddTest then { top := [.ctest (nameOf call.singles).1 [] (ctestParams call.singles)] } else {}) ∧
+        if cfg.inclAddTest then { top := [.ctest (nameOf call.allTexts).1 [] (ctestParams call.allTexts)] } else {}) ∧
     (∀ call, call.lname = lit "cpp_attr" →
       (Item.cmd none call).spec cfg ctx =
         if ctx = .shown ∧ cfg.inclCppAttr = true then
